@@ -87,6 +87,12 @@ def tlc_replay_stage(pid, module, cfg, timeout=900, workers=None, need_cases=Tru
         st.notes[cfg]["out_of_model"] = res["skipped"]
         if res["failed"] > len(res["fails"]):
             st.notes[cfg]["failures_truncated"] = res["failed"]
+        if "diverged" in res:
+            st.notes[cfg]["model_divergence"] = res["diverged"]
+            st.notes[cfg]["model_divergence_samples"] = [
+                {"src": d["observed"].get("src"), "why": d["why"]} for d in res.get("divergences", [])[:8]]
+            with open(os.path.join(common.outdir(pid), cfg + ".divergences.json"), "w") as f:
+                json.dump(res.get("divergences", []), f, indent=1)
     st.exhaustive = True
     return st
 
@@ -627,7 +633,86 @@ def check_C19(tier, seed):
         keep=lambda d: not d.get("oom"))
 
 
-CHECKS = {"C19": check_C19, "C14": check_C14, "C18": check_C18, "C02": check_C02, "C07": check_C07, "C20": check_C20, "C15": check_C15, "C13": check_C13, "C12": check_C12, "C08": check_C08, "C01": check_C01, "C04": check_C04, "C06": check_C06}
+def lex_mutations(seed, n):
+    """long source lines: programs of the random generator rendered to text, then damaged at token level
+    (deleted / duplicated / transposed pieces, case changes, blanks removed or inserted)"""
+    import random, gen, subprocess
+    r = random.Random(seed)
+    sess = gen_sessions(seed + 11, max(4, n // 20), "C05src")
+    sp = os.path.join(common.outdir("C05"), "src.sessions.ndjson")
+    with open(sp, "w") as f:
+        for s_ in sess:
+            f.write(json.dumps(s_) + "\n")
+    out = subprocess.run([common.BVH, "render", sp], stdout=subprocess.PIPE, text=True, check=True).stdout
+    lines = [l for l in out.splitlines() if l.strip()]
+    cases = []
+    pieces = [" ", "  ", ":", ";", ",", "(", ")", "\"", "E", "D", "e", "1", ".", "&H", "&", "<", "=", ">", "'", "REM", "GO",
+              "TO", "é", "😀", "!", "#", "%", "$", "?", "THEN", "ELSE", "1E5", "1D", "99999", "65529", "65530"]
+    for i in range(n):
+        t = r.choice(lines)
+        k = r.randint(0, 4)
+        for _ in range(k):
+            pos = r.randint(0, len(t))
+            op = r.random()
+            if op < 0.3:
+                t = t[:pos] + r.choice(pieces) + t[pos:]
+            elif op < 0.5 and t:
+                t = t[:pos] + t[pos + r.randint(1, 3):]
+            elif op < 0.65:
+                t = t[:pos] + t[pos:].swapcase()[:r.randint(1, 6)] + t[pos + 6:]
+            elif op < 0.8:
+                t = t.replace(" ", "", 1) if r.random() < 0.5 else t.replace(":", " : ", 1)
+            else:
+                a = r.randint(0, len(t)); b = min(len(t), a + r.randint(1, 8))
+                t = t[:pos] + t[a:b] + t[pos:]
+        if r.random() < 0.05:
+            t = (t + ":") * r.randint(2, 12)
+        t = t[:1024]
+        cases.append({"R": "lex", "x": [ord(c) for c in t]})
+    return cases
+
+
+def replay_cases_stage(pid, name, cases):
+    st = Stage()
+    d = common.outdir(pid)
+    cp = os.path.join(d, name + ".cases.ndjson")
+    with open(cp, "w") as f:
+        for c in cases:
+            f.write(json.dumps(c) + "\n")
+    resp = cp + ".result.json"
+    common.run_bvh(["replay", cp, resp])
+    res = json.load(open(resp))
+    st.evaluations = res["total"]
+    st.validated = res["ok"]
+    st.skipped = res["skipped"]
+    st.nontrivial = res.get("nontrivial", 0)
+    st.failures = res["fails"]
+    st.samples = res["samples"][:2]
+    st.notes[name] = {"cases": res["total"], "ok": res["ok"], "failed": res["failed"]}
+    return st
+
+
+def check_C05(tier, seed):
+    t0 = time.time()
+    stages = []
+    for cfg in ("MC_C05_%s.cfg" % tier, "MC_C05_%s_b.cfg" % tier):
+        stages.append(tlc_replay_stage("C05", "MC_C05.tla", cfg, timeout=6000))
+    stages.append(replay_cases_stage("C05", "long", lex_mutations(seed, 3000 if tier == "quick" else 60000)))
+    return finish("C05", tier, seed, "model_checking", stages, t0,
+                  rule="TLC enumerates every string up to the bound over the lexically significant alphabet (digits, point, "
+                       "exponent letters in both cases, hex letters, keyword-forming letters, suffixes, &, H, quote, remark "
+                       "markers, ?, punctuation, operators, blank, a non-ASCII letter; a longer bound over a reduced "
+                       "alphabet), runs the model scanner (BasicLex), checks ModelRoundTrip on the model, and prints each "
+                       "string with the model's tokens and listed text; the harness feeds each to the real lexer / lister / "
+                       "parser and checks the property's relations (same number, same parse or rejected in both, fixed point "
+                       "for lines that parse, string literals and remark text preserved); plus seeded long lines (rendered "
+                       "programs damaged at token level). A difference between model scanner and implementation alone is "
+                       "counted as model_divergence, never as a violation; non-trivial = lines that parse",
+                  assumptions=["column ranges are removed from the Debug form of ASTs before they are compared",
+                               "the harness comparator is trusted"])
+
+
+CHECKS = {"C05": check_C05, "C19": check_C19, "C14": check_C14, "C18": check_C18, "C02": check_C02, "C07": check_C07, "C20": check_C20, "C15": check_C15, "C13": check_C13, "C12": check_C12, "C08": check_C08, "C01": check_C01, "C04": check_C04, "C06": check_C06}
 for _p in ("C09", "C10", "C11", "C17"):
     CHECKS[_p] = prog_check(_p)
 
